@@ -143,6 +143,12 @@ theorem probe_is_pixel_centre (r c row0 col0 : Nat) :
 theorem probe_scope_own (r c row0 col0 : Nat) : probeScope r c row0 col0 = 1 := by
   simp [probeScope, probeScopeHand]
 
+/-- **probe_uses_full_wcs** — the sky position of a pixel centre is taken from the FULL pixel → sky transformation
+    (`all_pix2world`: core WCS plus SIP / distortion terms), the one `WCSHelper.pix2sky` uses for source
+    positions; with `wcs_pix2world` a SIP header shifts the probed positions by the distortion -/
+theorem probe_uses_full_wcs (r c row0 col0 : Nat) : probeFull r c row0 col0 = 1 := by
+  simp [probeFull, probeFullHand]
+
 /-- **regenerated_region_eq** — `find_islands(region=…)` assembled from the regenerated probe (glue
     `findRestrictedSky`; `sky (x, y)` = "the 0-based FITS position (x, y) is inside the region") is the model
     `findRestricted` with `inside (row, col) := sky (col, row)` -/
